@@ -48,10 +48,10 @@ CLAIMED = {
          "DESIGN.md 4 C10"),
  "C15": ("seeded boundary-dense random search over argument tuples with a validity model; metamorphic message-range consistency sweep",
          "2M (quick) / 40M (thorough) argument tuples over all 12 constructor/setter families (29 functions), each judged for Ok <=> valid, exact value, OutOfRange, no panic, plus ~45 alternative-value probes per rejected call whose message states a range; 500k / 5M DateTime setter calls on offset-carrying receivers on the two outermost days at each range end (valid fields with an unrepresentable instant must give OutOfRange)",
-         "trusts the validity models of C01/C08/C09/C10; messages without the 'must be in the range' form, or naming a receiver field rather than an argument, are not judged",
+         "trusts the validity models of C01/C08/C09/C10; messages without the 'must be in the range' form are not judged; a message naming a receiver field (day when set_month makes the date invalid) must exclude that field's value; a stated range of 'nanoseconds' is read as the range of instants (ns since 0001-01-01Z)",
          "DESIGN.md 4 C15"),
- "C11": ("grammar-based pattern generation + symbol x width x value-class product against a reference formatter written from the doc tables",
-         "500k (quick) / 10M (thorough) (value, pattern) cases over all three types, all eras, all offsets, patterns of fields x widths 1..=10, literals incl. non-ASCII, quoted text and '' escapes; plus the complete product 19 symbols x 10 widths x ~2300 value classes; output compared character by character with the reference rendering",
+ "C11": ("grammar-based pattern generation + symbol x width x value-class product against a reference formatter written from the doc tables; Offset::Local values rendered under an injected zone file and pinned clock",
+         "500k (quick) / 10M (thorough) (value, pattern) cases over all three types, all eras, all offsets, patterns of fields x widths 1..=10, literals incl. non-ASCII, quoted text and '' escapes; plus the complete product 19 symbols x 10 widths x ~2300 value classes; output compared character by character with the reference rendering; 60k / 1M Time and DateTime values carrying Offset::Local under synthesized zone files and a pinned clock (C11.local_offset); the same pattern used on the other two types directly before (history independence)",
          "trusts the reference formatter (reproduces all 403 format assertions of the repository's own tests at every selftest); renderings the table leaves open (yy for years <= -10, b inside the noon/midnight second, X..XXX for |offset| < 60 s) are skipped and counted",
          "DESIGN.md 4 C11"),
  "C12": ("round-trip property over a constructed grammar of coherent, textually unambiguous patterns; inputs are the crate's own formatted output",
@@ -67,12 +67,12 @@ CLAIMED = {
          "a panic anywhere in parse/from_str/parse_rfc3339/format/CronSchedule::parse/serde is a violation; Ok values are re-validated through the public constructors",
          "DESIGN.md 4 C14"),
  "C16": ("grammar-based generation + single-edit mutation + per-field complete value/step/range enumeration against a reference cron parser; denoted sets observed through the iterator under a pinned clock",
-         "200k (quick) / 2M (thorough) expressions (half mutated; one in twelve with lists of up to ~1000 items or whitespace runs of up to 65 537 characters; one in ten a sparse schedule read back from a generated start) plus every value, step and (grid of) ranges per field; accept/reject agreement and, for accepted expressions, equality of each field's denoted set read back through five probe schedules",
+         "200k (quick) / 2M (thorough) expressions (half mutated; one in twelve with lists of up to ~1000 items or whitespace runs of up to 65 537 characters; one in ten a sparse schedule read back from a generated start) plus every value, step and (grid of) ranges per field; accept/reject agreement and, for accepted expressions, equality of each field's denoted set read back through five probe schedules; mutants also put month/weekday names (any case, prefixes, extensions) into any field; look-alike expressions (field boundary moved, fields swapped, digit changed, case flipped) are parsed directly before the expression whose first result is then compared again",
          "leading zeros, '+' on values, steps > max+1, ranges with start > end and Unicode white space are unspecified and skipped; needs the clock pin hook",
          "DESIGN.md 4 C16"),
- "C17": ("model-based stateful generation: histories of (advance pinned clock, next, optional clone) against a reference earliest-matching-minute search",
-         "50k (quick) / 2M (thorough) histories of up to 12 calls (40 in the fixed cases) over sparse/dense schedules, month ends, leap days, year ends, clock jumps from 0 s to 800 days; every returned value must equal the reference",
-         "'restricted' day field = its value set is not the full range (set semantics, as the implementation and the property's anchors use); clock window 1970-2400; needs the clock pin hook",
+ "C17": ("model-based stateful generation: histories of (advance pinned clock, next, optional clone, optional second schedule polled in between) against a reference earliest-matching-minute search",
+         "300k + 20k (quick) / 2M + 500k (thorough) histories of up to 12 / 13-40 calls over sparse/dense schedules, month ends, leap days, year ends, clock jumps from 0 s to 800 days, clocks in any year (1970-2400, 1-9999, far years incl. before 0001 and next to the range ends); half of them with a second satisfiable schedule polled directly before every call and held to the same reference; every returned value must equal the reference",
+         "'restricted' day field = its value set is not the full range (set semantics, as the implementation and the property's anchors use); histories stop (skipped) when the reference result lies within a few years of the last representable year; needs the clock pin hook",
          "DESIGN.md 4 C17"),
  "C18": ("differential against a reference RFC 8536 / POSIX-TZ evaluator (itself cross-checked against CPython zoneinfo) over a vendored zoneinfo corpus and synthesized TZif files",
          "all 788 vendored fat+slim zone files x ~150 (quick) / ~2000 (thorough) timestamps at transitions, rule switches and random instants, plus 20k (quick) / 1M (thorough) synthesized v1/v2/v3 files with IANA-shaped footer rules (one in five with leap-second records), looked up in years 1900-2500 and, for the footer rule, in 22 far years from the first to the last supported year; one case in ten through the real Offset::Local.resolve() with injected /etc/localtime and pinned clock",
@@ -80,7 +80,7 @@ CLAIMED = {
          "DESIGN.md 4 C18"),
  "C19": ("structure-aware mutation of valid TZif files + mutated POSIX-TZ grammar + raw bytes, under catch_unwind; libFuzzer target on raw bytes in the thorough tier",
          "quick: ~9k systematic mutants (every header count x value, every truncation point, type bytes, hostile rule strings) + 600k random mutants (syntactically hostile and valid-but-degenerate footers) + 400k files with free header counts and a body laid out consistently with them but arbitrary content, each accepted file probed at ~100 timestamps over the whole DateTime range, one in ten through Offset::Local.resolve(); thorough: 6M mutants + fuzz campaign",
-         "'never loops' is only bounded by observing that every case returns (a case above 2 s is labelled); I/O failure modes other than a read error are not modelled",
+         "'never loops': a case that does not return within 45 s in the run and 120 s when replayed alone in a fresh process is reported as c19.does_not_return (hang monitor, DESIGN.md 2.6); I/O failure modes other than a read error are not modelled",
          "DESIGN.md 4 C19"),
  "C20": ("seeded random search against the reference formatter and a serde_json round trip; mutational generation for malformed text",
          "500k (quick) / 10M (thorough) values of all three types (all eras, all offsets) for Display/FromStr/serde, 1M / 5M malformed texts through FromStr and serde_json under catch_unwind; an accepted text of the documented shape must be read as the value it names (digit runs also congruent modulo 2^32 / 2^64 to valid fields)",
